@@ -97,6 +97,8 @@ func TestMain(m *testing.M) {
 func genPolicy(r *simctl.Rand, est int) simctl.Policy {
 	p := genPolicy0(r, est)
 	p.Pool = []int{0, 0, 0, 1, 2}[p.Seed%5]
+	// simulated time passing between steps ("the released task was slow")
+	p.Jitter = []int{0, 0, 0, 0, 0, 0, 20, 20, 200, 200}[(p.Seed/5)%10]
 	return p
 }
 
